@@ -237,6 +237,48 @@ def module_state(repo):
     return facts
 
 
+READ_ONLY_CALLS = ('len', 'isinstance', 'bool', 'str', 'repr', 'sum', 'min', 'max', 'any', 'all', 'sorted', 'list', 'tuple', 'enumerate', 'zip', 'iter')
+
+
+def mutable_defaults(repo):
+    """ a parameter whose default is a list / dict / set display is ONE object shared by every call of the function on every parser.
+        That is state only if the object can change or get out: obligation = the parameter is neither mutated nor handed to another
+        callable, returned, stored or yielded (read-only uses - iteration, indexing, len ... - are fine) """
+    out = []
+    for rel, qual, node, cls, tree in walk_functions(repo):
+        a = node.args
+        params = a.args + a.kwonlyargs
+        defaults = [None] * (len(a.args) - len(a.defaults)) + list(a.defaults) + list(a.kw_defaults)
+        for p_, d in zip(params, defaults):
+            if not isinstance(d, (ast.List, ast.Dict, ast.Set)) and not (isinstance(d, ast.Call) and isinstance(d.func, ast.Name) and d.func.id in ('list', 'dict', 'set')):
+                continue
+            name = p_.arg
+            escapes = []
+            for n in ast.walk(node):
+                if isinstance(n, ast.Call):
+                    fname = n.func.id if isinstance(n.func, ast.Name) else None
+                    for x in list(n.args) + [k.value for k in n.keywords]:
+                        if isinstance(x, ast.Name) and x.id == name and fname not in READ_ONLY_CALLS:
+                            escapes.append('passed to %s at line %d' % (ast.unparse(n.func), n.lineno))
+                        if isinstance(x, ast.Starred) and isinstance(x.value, ast.Name) and x.value.id == name:
+                            pass      # *args unpacking copies the items
+                    if isinstance(n.func, ast.Attribute) and isinstance(n.func.value, ast.Name) and n.func.value.id == name and n.func.attr in MUTATORS:
+                        escapes.append('mutated by .%s() at line %d' % (n.func.attr, n.lineno))
+                elif isinstance(n, (ast.Return, ast.Yield)) and isinstance(n.value, ast.Name) and n.value.id == name:
+                    escapes.append('returned at line %d' % n.lineno)
+                elif isinstance(n, ast.Assign):
+                    if isinstance(n.value, ast.Name) and n.value.id == name:
+                        escapes.append('stored at line %d' % n.lineno)
+                    for t in n.targets:
+                        if isinstance(t, ast.Subscript) and isinstance(t.value, ast.Name) and t.value.id == name:
+                            escapes.append('item assigned at line %d' % n.lineno)
+                elif isinstance(n, ast.AugAssign) and isinstance(n.target, ast.Name) and n.target.id == name:
+                    escapes.append('augmented in place at line %d' % n.lineno)
+            out.append(('%s:%s.mutable-default.%s' % (rel, qual, name), not escapes,
+                        'parameter %s of %s defaults to one shared %s that is %s' % (name, qual, ast.unparse(d), '; '.join(escapes) or 'only read')))
+    return out
+
+
 def clock_reads(repo):
     """ call sites of clock / random / environment sources; allowed only in NOW, TODAY, RAND, RANDBETWEEN """
     out = []
